@@ -182,8 +182,14 @@ func C05(c *ev.Ctx) {
 			c.Violation("intake-rejects-valid-windowed-request:"+cs.C.Ty, map[string]interface{}{"case": cs.C, "error": perr.Error(), "request": string(req)})
 		} else {
 			want := [2]int64{winSecs(cs.Out.ValidatorArgs[0]), winSecs(cs.Out.ValidatorArgs[1])}
+			if cs.C.From < 0 && cs.C.Until == 0 { // the default end of a negative anchorFrom, in seconds
+				want[1] = winSecs(cs.C.From) + int64(cs.C.Delta*winUnit)
+			}
 			if cs.C.Delta == infDelta && cs.C.From != 0 && cs.C.Until == 0 {
 				want[1] = math.MaxInt64
+				if cs.C.From < 0 { // nothing to saturate: the (largest) delta added to a negative bound
+					want[1] = math.MaxInt64 + winSecs(cs.C.From)
+				}
 			}
 			if len(local.calls) != 1 || local.calls[0] != want {
 				c.Violation("time-validator-arguments:"+cs.C.Ty, map[string]interface{}{"case": cs.C, "expected": want, "observed": local.calls,
